@@ -36,6 +36,8 @@ type c19 struct {
 	c   *Ctx
 	w   *sim.World
 	ioc *sonic.IO
+	// giveUp, if set, is consulted by the read loops: the oracle already has its answer
+	giveUp func() bool
 }
 
 func (d *c19) payloads(n int, allowBig bool) [][]byte {
@@ -127,6 +129,9 @@ func (d *c19) readItems(cc *c19Conn, n int, async bool, bytesExpected int) ([][]
 		}
 		step()
 		for i := 0; !finished; i++ {
+			if d.giveUp != nil && d.giveUp() {
+				return got, errors.New("gave up")
+			}
 			before := d.w.KernelCalls
 			d.pump()
 			if d.w.KernelCalls-before <= 1 {
@@ -141,6 +146,9 @@ func (d *c19) readItems(cc *c19Conn, n int, async bool, bytesExpected int) ([][]
 		return got, rerr
 	}
 	for rounds := 0; len(got) < n; rounds++ {
+		if d.giveUp != nil && d.giveUp() {
+			return got, errors.New("gave up")
+		}
 		if rounds > limit {
 			return got, errors.New("reader made no end (livelock)")
 		}
@@ -150,6 +158,9 @@ func (d *c19) readItems(cc *c19Conn, n int, async bool, bytesExpected int) ([][]
 			var err error
 			cc.AsyncReadNext(func(e error, it []byte) { err, item, done = e, append([]byte(nil), it...), true })
 			for i := 0; !done; i++ {
+				if d.giveUp != nil && d.giveUp() {
+					return got, errors.New("gave up")
+				}
 				before := d.w.KernelCalls
 				d.pump()
 				if d.w.KernelCalls-before <= 1 {
@@ -474,8 +485,21 @@ func runC19(c *Ctx, variant int) {
 		w.DataBytes(junk)
 		bad = append(bad, junk...)
 		capBefore := src.Cap()
+		maxGood := 0
+		for _, p := range good {
+			if len(p) > maxGood {
+				maxGood = len(p)
+			}
+		}
+		grewTooFar := func() bool { return src.Cap() > 4*(capBefore+maxGood+4096) }
+		d.giveUp = grewTooFar
+		defer Exclusive("c19-hostile-length")()
 		sendPieces(w, end, append(wire, bad...), []int{len(wire) + w.Range(0, 3)})
 		got, rerr := d.readItems(cc, len(good)+1, async, len(wire)+len(bad))
+		d.giveUp = nil
+		if grewTooFar() {
+			c.Failf("buffer-grew-towards-over-limit-length", "the source buffer grew from %d to %d bytes for a declared length of %d (limit %d): the length must be rejected before any buffering", capBefore, src.Cap(), over, frame.MaxPayloadLength)
+		}
 		d.compare("hostile (items before the bad prefix)", good, got[:min(len(got), len(good))], rerr)
 		if len(got) > len(good) {
 			c.Failf("over-limit-length-accepted", "a declared length of %d (limit %d) was returned as an item of %d bytes", over, frame.MaxPayloadLength, len(got[len(good)]))
